@@ -135,7 +135,10 @@ def with_injections(base, n_events, kinds, next_id):
     for p_str, n in n_events.items():
         p = int(p_str)
         ln = c03.log_len(base["logs"][p_str])
-        for k in range(1, n + 1):
+        ks = list(range(1, n + 1))
+        if n > 40:      # long retry loops: the first 30 indices and a spread over the rest
+            ks = ks[:30] + ks[30::max(1, (n - 30) // 10)][:10]
+        for k in ks:
             for kind in kinds:
                 sc = copy.deepcopy(base)
                 sc["id"] = next_id[0]
